@@ -154,12 +154,81 @@ const USE_WHITELIST: &[(&str, &str)] = &[
 ];
 
 /// attributes without influence on what the code means
-const HARMLESS_ATTRS: &[&str] = &["doc", "inline", "allow", "derive", "must_use", "test", "cold", "warn", "deny", "deprecated"];
+const HARMLESS_ATTRS: &[&str] = &["doc", "inline", "derive", "must_use", "test", "cold", "deprecated"];
+
+/// `#[allow(..)]` / `#[warn(..)]` / `#[deny(..)]` are harmless only for lints that cannot hide a
+/// change of meaning: the clippy lints and `unused_unsafe` (NOT `overflowing_literals`,
+/// `non_upper_case_globals`, `arithmetic_overflow`, ..)
+fn lint_attr_ok(a: &syn::Attribute) -> bool {
+    let t = attr_text(a);
+    let inner = match t.split_once('(') {
+        Some((_, r)) => r.trim_end_matches(')').to_string(),
+        None => return false,
+    };
+    !inner.is_empty() && inner.split(',').all(|l| l.starts_with("clippy::") || l == "unused_unsafe")
+}
+
+/// the global constants that the translator resolves by name (rules 9, 14, 21): no parameter,
+/// local, pattern or item anywhere may be spelled like one of them (check C-CONST)
+pub const GLOBAL_CONSTS: &[&str] = &[
+    "SMALLEST_POWER_OF_FIVE", "LARGEST_POWER_OF_FIVE", "POWER_OF_FIVE_128", "BASE10_POWERS", "LIMB_BITS", "LARGE_POW5", "LARGE_POW5_STEP",
+    "BIGINT_LIMBS", "BIGINT_BITS",
+];
+
+/// the `macro_rules!` definitions present today: (file, name)
+const MACROS: &[(&str, &str)] = &[
+    ("slow.rs", "add_digit"),
+    ("slow.rs", "add_temporary"),
+    ("slow.rs", "round_up_truncated"),
+    ("slow.rs", "round_up_nonzero"),
+    ("bigint.rs", "hi"),
+    ("front_test", "b"),
+];
+
+/// functions of the vector back-ends that are not translated but that translated code runs
+/// through (`DerefMut` behind `as_mut_ptr()`, `x[i] = e`, `iter_mut()`, `get_mut()`; `PartialEq`,
+/// `PartialOrd`, `Ord`, `MulAssign`): their bodies must be, token for token, today's (check C-PIN)
+const PINNED: &[(&str, &str, &str, &str)] = &[
+    ("stackvec.rs", "ops::Deref", "deref", "{unsafe{letptr=self.data.as_ptr()as*constbigint::Limb;slice::from_raw_parts(ptr,self.len())}}"),
+    ("stackvec.rs", "ops::DerefMut", "deref_mut", "{unsafe{letptr=self.data.as_mut_ptr()as*mutbigint::Limb;slice::from_raw_parts_mut(ptr,self.len())}}"),
+    ("stackvec.rs", "PartialEq", "eq", "{usecore::ops::Deref;self.len()==other.len()&&self.deref()==other.deref()}"),
+    ("stackvec.rs", "cmp::PartialOrd", "partial_cmp", "{Some(bigint::compare(self,other))}"),
+    ("stackvec.rs", "cmp::Ord", "cmp", "{bigint::compare(self,other)}"),
+    ("stackvec.rs", "ops::MulAssign<&[bigint::Limb]>", "mul_assign", "{bigint::large_mul(self,rhs).unwrap();}"),
+    ("heapvec.rs", "ops::Deref", "deref", "{&self.data}"),
+    ("heapvec.rs", "ops::DerefMut", "deref_mut", "{&mutself.data}"),
+    ("heapvec.rs", "PartialEq", "eq", "{usecore::ops::Deref;self.len()==other.len()&&self.deref()==other.deref()}"),
+    ("heapvec.rs", "cmp::PartialOrd", "partial_cmp", "{Some(bigint::compare(self,other))}"),
+    ("heapvec.rs", "cmp::Ord", "cmp", "{bigint::compare(self,other)}"),
+    ("heapvec.rs", "ops::MulAssign<&[bigint::Limb]>", "mul_assign", "{bigint::large_mul(self,rhs).unwrap();}"),
+    ("bigint.rs", "ops::MulAssign<&Bigint>", "mul_assign", "{self.data*=&rhs.data;}"),
+];
+
+/// `deref_mut` must be `deref` up to mutability (check C-PIN)
+fn deref_mut_as_deref(t: &str) -> String {
+    t.replace("as_mut_ptr", "as_ptr").replace("*mut", "*const").replace("from_raw_parts_mut", "from_raw_parts").replace("&mutself.data", "&self.data")
+}
 
 /// the `impl` blocks present today: (file, trait ("" = inherent), self type, the functions it may
 /// define).  Any other `impl` block, or any other function in one of these, is refused: an
 /// inherent method would beat the slice / trait method of the same name that the translator maps
 /// (`iter_mut`, `cmp`, `default`, ..), an `impl Float` could override a translated default method.
+const FLOAT_CONSTS: &[&str] = &[
+    "MAX_DIGITS", "SIGN_MASK", "EXPONENT_MASK", "HIDDEN_BIT_MASK", "MANTISSA_MASK", "MANTISSA_SIZE", "EXPONENT_BIAS", "DENORMAL_EXPONENT",
+    "MAX_EXPONENT", "CARRY_MASK", "MIN_EXPONENT_ROUND_TO_EVEN", "MAX_EXPONENT_ROUND_TO_EVEN", "MINIMUM_EXPONENT", "SMALLEST_POWER_OF_TEN",
+    "LARGEST_POWER_OF_TEN", "MIN_EXPONENT_FAST_PATH", "MAX_EXPONENT_FAST_PATH", "MAX_EXPONENT_DISGUISED_FAST_PATH",
+];
+
+/// the associated constants / types an impl block may contain besides its functions: (trait, self type, names)
+fn impl_other_items(tr: &str, ty: &str) -> &'static [&'static str] {
+    match (tr, ty) {
+        ("Float", "f32") | ("Float", "f64") => FLOAT_CONSTS,
+        ("ops::Index<usize>", "ReverseView<'a,T>") => &["Output"],
+        ("ops::Deref", "StackVec") | ("ops::Deref", "HeapVec") => &["Target"],
+        _ => &[],
+    }
+}
+
 const IMPLS: &[(&str, &str, &str, &[&str])] = &[
     ("num.rs", "Float", "f32", &["pow_fast_path", "from_u64", "from_bits", "to_bits"]),
     ("num.rs", "Float", "f64", &["pow_fast_path", "from_u64", "from_bits", "to_bits"]),
@@ -328,6 +397,11 @@ impl<'a> Pre<'a> {
 
     /// approve the `cfg` / `cfg_attr` attributes of a construct described by `ctx`
     fn approve(&mut self, attrs: &[syn::Attribute], ctx: &str) {
+        // at most one `cfg` / `cfg_attr` per construct (stacked ones are a conjunction that the
+        // lowering would not see)
+        if attrs.iter().filter(|a| attr_name(a) == "cfg").count() > 1 {
+            return;
+        }
         for a in attrs {
             let n = attr_name(a);
             if n == "cfg" || n == "cfg_attr" {
@@ -348,6 +422,9 @@ impl<'a> Pre<'a> {
             syn::Stmt::Expr(syn::Expr::Block(b), _) => (&b.attrs, "stmt"),
             _ => return,
         };
+        if attrs.iter().filter(|a| attr_name(a) == "cfg").count() > 1 {
+            return;
+        }
         for a in attrs {
             if attr_name(a) == "cfg" {
                 let t = attr_text(a);
@@ -420,15 +497,42 @@ impl<'a> Pre<'a> {
                 format!("unexpected `impl {}{}{}`: it could change the meaning of a method / operator that the translator maps", tr, if tr.is_empty() { "" } else { " for " }, ty),
             ),
             Some((_, _, _, allowed)) => {
+                let others = impl_other_items(&tr, &ty);
                 for ii in &im.items {
-                    if let syn::ImplItem::Fn(f) = ii {
-                        let n = f.sig.ident.to_string();
-                        if !allowed.contains(&n.as_str()) {
-                            self.problem(
-                                f.span(),
-                                format!("unexpected function `{}` in `impl {}{}{}` (it could shadow / override what the translator maps)", n, tr, if tr.is_empty() { "" } else { " for " }, ty),
-                            );
+                    match ii {
+                        syn::ImplItem::Fn(f) => {
+                            let n = f.sig.ident.to_string();
+                            if !allowed.contains(&n.as_str()) {
+                                self.problem(
+                                    f.span(),
+                                    format!("unexpected function `{}` in `impl {}{}{}` (it could shadow / override what the translator maps)", n, tr, if tr.is_empty() { "" } else { " for " }, ty),
+                                );
+                            }
+                            // C-PIN: untranslated functions that translated code runs through
+                            if let Some((_, _, _, want)) = PINNED.iter().find(|(f2, t2, n2, _)| *f2 == self.fname && *t2 == tr && *n2 == n) {
+                                let got = nospace(&f.block.to_token_stream().to_string());
+                                if got != *want {
+                                    self.problem(f.span(), format!("the body of `{}` (not translated, but translated code runs through it) is no longer today's `{}`", n, want));
+                                }
+                                if n == "deref_mut" {
+                                    let d = PINNED.iter().find(|(f2, _, n2, _)| *f2 == self.fname && *n2 == "deref").map(|x| x.3).unwrap_or("");
+                                    if deref_mut_as_deref(&got) != d {
+                                        self.problem(f.span(), "`deref_mut` is not `deref` up to mutability".into());
+                                    }
+                                }
+                            }
                         }
+                        // C-IMPL: associated constants / types are looked up before the trait's
+                        // (`Self::C`), macros in item position can expand to anything
+                        syn::ImplItem::Const(c) if others.contains(&c.ident.to_string().as_str()) => {}
+                        syn::ImplItem::Type(t) if others.contains(&t.ident.to_string().as_str()) => {}
+                        other => self.problem(other.span(), format!("unexpected associated item in `impl {}{}{}` (a constant / type / macro the translator does not know)", tr, if tr.is_empty() { "" } else { " for " }, ty)),
+                    }
+                }
+                // every pinned function of this impl must still be there
+                for (f2, t2, n2, _) in PINNED.iter() {
+                    if *f2 == self.fname && *t2 == tr && !im.items.iter().any(|ii| matches!(ii, syn::ImplItem::Fn(f) if f.sig.ident == n2)) {
+                        self.problem(im.span(), format!("`{}` is missing from `impl {} for {}`", n2, tr, ty));
                     }
                 }
             }
@@ -440,6 +544,9 @@ impl<'a, 'ast> Visit<'ast> for Pre<'a> {
     fn visit_attribute(&mut self, a: &'ast syn::Attribute) {
         let n = attr_name(a);
         if HARMLESS_ATTRS.contains(&n.as_str()) || n.starts_with("rustfmt::") {
+            return;
+        }
+        if (n == "allow" || n == "warn" || n == "deny") && lint_attr_ok(a) {
             return;
         }
         if (n == "cfg" || n == "cfg_attr") && self.approved.contains(&(a as *const _)) {
@@ -468,6 +575,11 @@ impl<'a, 'ast> Visit<'ast> for Pre<'a> {
             I::Const(c) => {
                 self.approve(&c.attrs, &format!("const:{}", c.ident));
                 self.defines(c.ident.span(), &c.ident.to_string(), "constant");
+                if c.ident.to_string().chars().any(|ch| ch.is_lowercase()) {
+                    // C-PAT: a lower-case constant turns binding patterns into constant patterns,
+                    // also inside macro bodies, which the pre-pass cannot see
+                    self.problem(c.ident.span(), format!("constant `{}` is not an upper-case name", c.ident));
+                }
                 if in_fn {
                     // a local constant is visible in its whole block, and turns identifier patterns
                     // of its name into constant patterns: only upper-case names, declared before
@@ -491,6 +603,9 @@ impl<'a, 'ast> Visit<'ast> for Pre<'a> {
             I::Static(c) => {
                 self.approve(&c.attrs, &format!("static:{}", c.ident));
                 self.defines(c.ident.span(), &c.ident.to_string(), "static");
+                if c.ident.to_string().chars().any(|ch| ch.is_lowercase()) {
+                    self.problem(c.ident.span(), format!("static `{}` is not an upper-case name", c.ident));
+                }
                 if in_fn {
                     self.problem(c.span(), "`static` inside a function body".into());
                 }
@@ -517,6 +632,11 @@ impl<'a, 'ast> Visit<'ast> for Pre<'a> {
                 }
             }
             I::Trait(s) => {
+                for ti in &s.items {
+                    if !matches!(ti, syn::TraitItem::Fn(_) | syn::TraitItem::Const(_)) {
+                        self.problem(ti.span(), format!("unexpected item in `trait {}` (a macro / type the translator does not know)", s.ident));
+                    }
+                }
                 self.approve(&s.attrs, &format!("trait:{}", s.ident));
                 self.defines(s.ident.span(), &s.ident.to_string(), "trait");
                 if in_fn {
@@ -552,6 +672,12 @@ impl<'a, 'ast> Visit<'ast> for Pre<'a> {
             I::Macro(m) => {
                 self.approve(&m.attrs, "macro");
                 if m.mac.path.is_ident("macro_rules") {
+                    // C-MACRO: only today's macros, in today's files (none in lib.rs: a macro
+                    // defined there is in textual scope of every later module)
+                    let name = m.ident.as_ref().map(|i| i.to_string()).unwrap_or_default();
+                    if !MACROS.iter().any(|(f, n)| *f == self.fname && *n == name) {
+                        self.problem(m.span(), format!("unexpected `macro_rules! {}` (macros are looked up per file and by name)", name));
+                    }
                     if let Some(id) = &m.ident {
                         // macros have their own namespace: only the std macros with a fixed meaning
                         if RESERVED.contains(&id.to_string().as_str()) {
@@ -620,6 +746,9 @@ impl<'a, 'ast> Visit<'ast> for Pre<'a> {
 
     fn visit_pat_ident(&mut self, p: &'ast syn::PatIdent) {
         let n = p.ident.to_string();
+        if GLOBAL_CONSTS.contains(&n.as_str()) {
+            self.problem(p.span(), format!("the binding `{}` is spelled like a global constant that the translator resolves by name", n));
+        }
         if n != "None" {
             let local = self.local_consts.iter().any(|l| l.contains(&n));
             if local || self.value_names.contains(&n) {
@@ -641,7 +770,7 @@ impl<'a, 'ast> Visit<'ast> for Pre<'a> {
 /// names of a file's value namespace that may make an identifier pattern a constant pattern:
 /// constants, statics, unit / tuple structs, enum variants cannot be imported without a `use`, so
 /// the `use` leaves are included
-fn value_names(file: &syn::File) -> HashSet<String> {
+pub fn value_names(file: &syn::File) -> HashSet<String> {
     let mut s = HashSet::new();
     for it in &file.items {
         match it {
@@ -821,33 +950,47 @@ pub fn check_modules(lib: &syn::File, modules: &[&str]) -> Vec<String> {
     problems
 }
 
-/// the types whose methods / operators the translator maps
-const MAPPED_TYPES: &[&str] = &[
-    "Number", "ExtendedFloat", "BellerophonPowers", "Bigint", "ReverseView", "StackVec", "HeapVec", "VecType", "FastPathRadix", "Option",
-    "Ordering", "u8", "u16", "u32", "u64", "u128", "usize", "i8", "i16", "i32", "i64", "i128", "isize", "bool", "f32", "f64",
+/// the `impl` blocks, type aliases and macros of the modules that are NOT read, as they are today:
+/// (file, description).  An impl can sit in any module and can be written through a type alias, so
+/// in these modules every impl block, every `type` alias and every macro must be one of these.
+const UNREAD_ITEMS: &[(&str, &str)] = &[("fpu.rs", "impl Drop for FPUControlWord"), ("libm.rs", "macro i")];
+
+/// the modules lib.rs declares today
+pub const KNOWN_MODULES: &[&str] = &[
+    "bellerophon", "bigint", "extended_float", "fpu", "heapvec", "lemire", "libm", "mask", "num", "number", "parse", "rounding", "slow",
+    "stackvec", "table", "table_bellerophon", "table_lemire", "table_small",
 ];
 
-struct Unread {
+struct Unread<'a> {
+    fname: &'a str,
     problems: Vec<String>,
 }
 
-impl<'ast> Visit<'ast> for Unread {
-    fn visit_item_impl(&mut self, im: &'ast syn::ItemImpl) {
-        let last = |p: &syn::Path| p.segments.last().map(|s| s.ident.to_string()).unwrap_or_default();
-        let ty = match &*im.self_ty {
-            syn::Type::Path(p) => last(&p.path),
-            syn::Type::Reference(r) => match &*r.elem {
-                syn::Type::Path(p) => last(&p.path),
-                _ => "?".into(),
-            },
-            _ => "?".into(),
-        };
-        let tr = im.trait_.as_ref().map(|(_, p, _)| last(p)).unwrap_or_default();
-        if MAPPED_TYPES.contains(&ty.as_str()) || ty == "?" || tr == "Float" || !im.generics.params.is_empty() {
-            let lc = im.span().start();
-            self.problems.push(format!("line {}:{}: `impl {} {}`: an impl for a type / trait that the translator maps, outside the files it reads", lc.line, lc.column + 1, tr, ty));
+impl<'a> Unread<'a> {
+    fn expect(&mut self, sp: proc_macro2::Span, what: String) {
+        if !UNREAD_ITEMS.iter().any(|(f, w)| *f == self.fname && *w == what) {
+            let lc = sp.start();
+            self.problems.push(format!("line {}:{}: `{}` in a module that is not read (impls can live anywhere and hide behind aliases)", lc.line, lc.column + 1, what));
         }
+    }
+}
+
+impl<'a, 'ast> Visit<'ast> for Unread<'a> {
+    fn visit_item_impl(&mut self, im: &'ast syn::ItemImpl) {
+        let tr = im.trait_.as_ref().map(|(_, p, _)| nospace(&p.to_token_stream().to_string())).unwrap_or_default();
+        let ty = nospace(&im.self_ty.to_token_stream().to_string());
+        let what = if tr.is_empty() { format!("impl {}", ty) } else { format!("impl {} for {}", tr, ty) };
+        self.expect(im.span(), what);
         syn::visit::visit_item_impl(self, im);
+    }
+    fn visit_item_type(&mut self, t: &'ast syn::ItemType) {
+        self.expect(t.span(), format!("type {}", t.ident));
+    }
+    fn visit_item_macro(&mut self, m: &'ast syn::ItemMacro) {
+        match (&m.ident, m.mac.path.is_ident("macro_rules")) {
+            (Some(id), true) => self.expect(m.span(), format!("macro {}", id)),
+            _ => self.expect(m.span(), format!("{}! in item position", nospace(&m.mac.path.to_token_stream().to_string()))),
+        }
     }
     fn visit_item_mod(&mut self, m: &'ast syn::ItemMod) {
         if m.content.is_none() {
@@ -855,6 +998,19 @@ impl<'ast> Visit<'ast> for Unread {
             self.problems.push(format!("line {}:{}: `mod {};`: a further file that is not read", lc.line, lc.column + 1, m.ident));
         }
         syn::visit::visit_item_mod(self, m);
+    }
+    fn visit_impl_item_macro(&mut self, m: &'ast syn::ImplItemMacro) {
+        self.expect(m.span(), "macro in impl-item position".into());
+    }
+    fn visit_trait_item_macro(&mut self, m: &'ast syn::TraitItemMacro) {
+        self.expect(m.span(), "macro in trait-item position".into());
+    }
+    fn visit_attribute(&mut self, a: &'ast syn::Attribute) {
+        let n = attr_name(a);
+        if n == "path" || n == "macro_use" || n == "macro_export" {
+            let lc = a.span().start();
+            self.problems.push(format!("line {}:{}: attribute `#[{}]`", lc.line, lc.column + 1, attr_text(a)));
+        }
     }
     fn visit_macro(&mut self, m: &'ast syn::Macro) {
         if m.path.to_token_stream().to_string().starts_with("include") {
@@ -865,11 +1021,9 @@ impl<'ast> Visit<'ast> for Unread {
     }
 }
 
-/// a module of the crate that the translator does not read (fpu.rs, libm.rs, table_bellerophon.rs):
-/// inherent impls and trait impls may live in any module, so it must not contain an impl for a
-/// mapped type or of `Float`
-pub fn check_unread(file: &syn::File) -> Vec<String> {
-    let mut u = Unread { problems: vec![] };
+/// a module of the crate that the translator does not read (fpu.rs, libm.rs, table_bellerophon.rs)
+pub fn check_unread(fname: &str, file: &syn::File) -> Vec<String> {
+    let mut u = Unread { fname, problems: vec![] };
     u.visit_file(file);
     u.problems
 }
@@ -885,11 +1039,12 @@ pub fn declared_modules(lib: &syn::File) -> Vec<String> {
         .collect()
 }
 
-struct Expansion {
+struct Expansion<'a> {
     problems: Vec<String>,
+    value_names: &'a HashSet<String>,
 }
 
-impl<'ast> Visit<'ast> for Expansion {
+impl<'a, 'ast> Visit<'ast> for Expansion<'a> {
     fn visit_attribute(&mut self, a: &'ast syn::Attribute) {
         if attr_name(a) != "doc" {
             self.problems.push(format!("attribute `#[{}]` inside a macro body / macro argument", attr_text(a)));
@@ -902,8 +1057,8 @@ impl<'ast> Visit<'ast> for Expansion {
     fn visit_pat_ident(&mut self, p: &'ast syn::PatIdent) {
         // (constant patterns: the pre-pass does not see macro bodies; upper-case binders are refused)
         let n = p.ident.to_string();
-        if n != "None" && n.chars().next().map(|c| c.is_uppercase()).unwrap_or(false) {
-            self.problems.push(format!("upper-case pattern identifier `{}` inside a macro body", n));
+        if n != "None" && (n.chars().next().map(|c| c.is_uppercase()).unwrap_or(false) || self.value_names.contains(&n) || GLOBAL_CONSTS.contains(&n.as_str())) {
+            self.problems.push(format!("the pattern identifier `{}` inside a macro body may be a constant pattern", n));
         }
         syn::visit::visit_pat_ident(self, p);
     }
@@ -911,8 +1066,8 @@ impl<'ast> Visit<'ast> for Expansion {
 
 /// the pre-pass does not see inside macro bodies / arguments (token trees): what a macro of the
 /// file expands to, and the arguments of `debug_assert!`, may not contain attributes or items
-pub fn check_expansion_stmts(stmts: &[syn::Stmt]) -> Result<(), String> {
-    let mut e = Expansion { problems: vec![] };
+pub fn check_expansion_stmts(stmts: &[syn::Stmt], value_names: &HashSet<String>) -> Result<(), String> {
+    let mut e = Expansion { problems: vec![], value_names };
     for s in stmts {
         e.visit_stmt(s);
     }
@@ -922,8 +1077,8 @@ pub fn check_expansion_stmts(stmts: &[syn::Stmt]) -> Result<(), String> {
     }
 }
 
-pub fn check_expansion_expr(x: &syn::Expr) -> Result<(), String> {
-    let mut e = Expansion { problems: vec![] };
+pub fn check_expansion_expr(x: &syn::Expr, value_names: &HashSet<String>) -> Result<(), String> {
+    let mut e = Expansion { problems: vec![], value_names };
     e.visit_expr(x);
     match e.problems.first() {
         Some(p) => Err(p.clone()),
